@@ -379,8 +379,9 @@ class C37(core.Prop):
             actions = sorted(set(l.split()[1] for f in traces for l in open(f) if len(l.split()) > 1))
             if rr.rc != 0 or not end or len(fin) != np_:
                 kind = "deadlock" if "eadlock" in rr.err else "cpu" if rr.cpu_exceeded else "crash" if rr.rc < 0 else "failed"
-                # SMP-aware algorithms (mpich / mvapich2 selectors) call Comm::init_smp(), which switches the replay mode off for a while
-                cls = "smp-aware-selector" if kind == "crash" and case.get("selector") in ("mpich", "mvapich2") and b.ncoll else self.classify(b, actions)
+                # the algorithms chosen by the ompi / mpich / mvapich2 selectors may call Comm::init_smp(), which switches the replay mode
+                # off for a while (known finding): a crash of the replay with such a selector is put in that class
+                cls = "init-smp" if kind == "crash" and case.get("selector", "default") != "default" and b.ncoll else self.classify(b, actions)
                 err = "\n".join(l for l in rr.err.splitlines() if "Switch to algorithm" not in l)
                 oc.bad("%s:replay-%s" % (cls, kind), "the replay of the trace ended with rc=%s, %d/%d ranks reached finalize; traced actions: %s; stderr tail: %s"
                        % (rr.rc, len(fin), np_, actions, err[-1200:]))
